@@ -100,6 +100,25 @@ fn run_ovr(ev: &CircuitEval, pw: PartialWitness<F>, ovrs: &[Ovr]) -> Outcome {
     };
     ev.run(pw, &mut tw)
 }
+/// honest (low, high) of LowHighGenerator occurrence `occ` on this witness, re-presented through the x + p alias of the
+/// split value (None when x + p >= 2^64).  For a comparator's 32/33 split the alias has high = 2^32 - 1 (not a bit).
+fn lh_alias_of(ev: &CircuitEval, pw: PartialWitness<F>, occ: usize) -> Option<Ovr> {
+    let mut seen: Option<(u64, u64)> = None;
+    {
+        let mut tw = |id: &str, o: usize, _w: &plonky2::iop::witness::PartitionWitness<F>, vals: &mut Vec<(Target, F)>| {
+            if id.starts_with(LH) && o == occ && vals.len() >= 2 {
+                seen = Some((plonky2::field::types::PrimeField64::to_canonical_u64(&vals[0].1), plonky2::field::types::PrimeField64::to_canonical_u64(&vals[1].1)));
+            }
+        };
+        let _ = ev.run(pw, &mut tw);
+    }
+    let (lo, hi) = seen?;
+    let y = lo as u128 + ((hi as u128) << 32) + P as u128;
+    if y >> 64 != 0 {
+        return None;
+    }
+    Some(Ovr { kind: 2, occ, vals: vec![(y & 0xFFFF_FFFF) as u64, (y >> 32) as u64] })
+}
 fn ovr_segs(ovrs: &[Ovr]) -> Vec<Seg> {
     ovrs.iter()
         .map(|o| {
@@ -185,7 +204,25 @@ fn main() {
                     let nsp = ev.count_gen(SP);
                     let mut ovrs = vec![];
                     let otag;
-                    match rng.below(4) {
+                    match rng.below(6) {
+                        4 | 5 => {
+                            // any split of the nullifier sort (ingress 32/64 or comparator 32/33) through its x + p alias
+                            let mut t = "lowhigh-alias-none";
+                            if nlh > 0 {
+                                let occ = rng.below(nlh as u64) as usize;
+                                match lh_alias_of(&ev, priv_pw(w, &leaves, &pre), occ) {
+                                    Some(o) => {
+                                        ovrs.push(o);
+                                        t = "lowhigh-alias";
+                                    }
+                                    None => {
+                                        ovrs.push(Ovr { kind: 2, occ, vals: vec![rng.below(1 << 32), (1 << 32) - 1] });
+                                        t = "lowhigh-high-max";
+                                    }
+                                }
+                            }
+                            otag = t;
+                        }
                         0 => {
                             ovrs.push(Ovr { kind: 1, occ: rng.below(neq as u64) as usize, vals: vec![*rng.pick(&[0u64, 1, 2, P - 1]), if rng.chance(1, 2) { 0 } else { rng.edge_felt() }] });
                             otag = "eq-forge";
